@@ -379,6 +379,7 @@ func genCase(r *rng.R) fw.Case {
 	if st.enabledTags > 0 {
 		tags = append(tags, "enabled-expr")
 	}
+	tags = append(tags, shapeTags(root)...)
 	tags = append(tags, fmt.Sprintf("depth=%d", st.depth), fmt.Sprintf("roles~%d", (st.roles+2)/3*3))
 	return fw.Case{Input: root.String(), Tags: tags}
 }
@@ -428,9 +429,14 @@ func generate(tier string, r *rng.R) []fw.Case {
 	if tier == "thorough" {
 		n = 30000
 	}
-	cs := make([]fw.Case, 0, n)
+	cs := make([]fw.Case, 0, n+n/5)
 	for i := 0; i < n; i++ {
 		cs = append(cs, genCase(r.Fork()))
+	}
+	// a dedicated stream on top: iterators nested in iterator templates (depth 2–3) whose inner
+	// range depends on the enclosing iteration (see nested.go)
+	for i := 0; i < n/5; i++ {
+		cs = append(cs, genNestedCase(r.Fork()))
 	}
 	return cs
 }
